@@ -8,7 +8,7 @@ from . import e2e, e2etags, geomgen as G, topo2
 
 ID = "C10"
 LEVEL = "proof"
-LEAN_MODULES = ["DracoProps.C10", "DracoProps.C10Kd"]
+LEAN_MODULES = ["DracoProps.C10", "DracoProps.C10Kd", "DracoProps.C10Eb"]
 RULE = ("(a) generated point clouds and meshes with quantized float positions / generic / tex-coord / colour attributes, "
         "octahedral normals and integer attributes, encoded with every method (sequential, kd-tree, Edgebreaker standard / "
         "valence, speeds 0..10, Encoder and ExpertEncoder API) and decoded with SetSkipAttributeTransform for EVERY "
